@@ -32,7 +32,7 @@ class C12(Check):
     title = 'Optimal partitioning returns a global optimum for the requested direction'
     functions = ['segmentation.optimalPartition', 'segmentation.backward/backtracking', 'segmentation.optimalSegmentation', 'simplification.optimalSimplification']
     stubs = ['segmentation.np rebound so that np.zeros tables are object arrays holding z3 terms', 'progressbar not used (verbose=False)']
-    assumptions = ['cost entries are reals in [0,100] (symmetric matrix; only the upper triangle among the N candidates is read)',
+    assumptions = ['cost entries are reals in [-100,100] (costs or rewards of either sign) (symmetric matrix; only the upper triangle among the N candidates is read)',
                    'N = shape-1 candidates as the implementation defines them; N >= 2']
     outside = ['N > 6', 'the documented meaning of the individual cost functions (minimum bounding rectangles: numpy / trigonometry)',
                'N = 1 (single candidate: degenerate)', 'stop detection pipelines beyond their call of optimalPartition']
@@ -40,7 +40,7 @@ class C12(Check):
 
     def bounds(self, tier):
         return dict(candidates='N = 2..5 fully explored' + ('' if tier == 'quick' else ', N = 6 under the time budget (unexplored prefixes reported)'),
-                    costs='every upper-triangle entry a symbolic real in [0,100]', directions=['minimise', 'maximise'],
+                    costs='every upper-triangle entry a symbolic real in [-100,100]', directions=['minimise', 'maximise'],
                     wiring='optimalSegmentation with a symbolic cost table for tracks of 3..%d fixes; optimalSimplification wrapper on concrete tracks' % (5 if tier == 'quick' else 6))
 
     def jobs(self, tier, seed):
@@ -97,7 +97,7 @@ class C12(Check):
             C.fill(0.0)
             for i in range(N):
                 for j in range(i + 1, N):
-                    v = eng.real('c%d_%d' % (i, j), 0, 100)
+                    v = eng.real('c%d_%d' % (i, j), -100, 100)
                     c[(i, j)] = v.z
                     C[i, j] = v
                     C[j, i] = v
@@ -123,7 +123,7 @@ class C12(Check):
                 calls.append((i, j))
                 key = (i, j)
                 if key not in table:
-                    table[key] = eng.real('k%d_%d' % (i, j if j >= 0 else 99), 0, 100)
+                    table[key] = eng.real('k%d_%d' % (i, j if j >= 0 else 99), -100, 100)
                 return table[key]
             try:
                 res = seg.optimalSegmentation(tr, cost, None, mode, verbose=False)
